@@ -20,6 +20,8 @@ var (
 	replayFile      = flag.String("replay", "", "replay a journaled case instead of generating")
 	maxSteps        = flag.Int("steps", 14, "maximum number of steps per generated history")
 	tier            = flag.String("tier", "quick", "quick|thorough")
+	schedules       = flag.Int("schedules", 3, "C11: perturbed schedules per generated program set")
+	replayRuns      = flag.Int("replayruns", 8, "C11: how often a replayed case is executed")
 	gnuTar          = flag.Bool("gnutar", false, "C17: let /usr/bin/tar write a third of the archives")
 	noMinisign      = flag.Bool("nominisign", false, "C18: leave out minisign (scrypt at 1 GiB per operation)")
 	byteEdits       = flag.Int("byteedits", 300, "C08: number of enumerated single-byte edits per tape (-1: every byte, three edits each)")
